@@ -12,6 +12,7 @@ _UNIT_MODULES = [
     "units.u_rulemap.unit",
     "units.u_literal.unit",
     "units.u_format.unit",
+    "units.u_inspect.unit",
 ]
 
 UNITS = {}
@@ -26,7 +27,7 @@ REPORT_TB = ["ASSUMED contracts of diagn::Report methods (units/contracts_report
 RESOLVER_TB = ["ASSUMED contracts of unverified customasm code used by U-resolver/U-iterate: asm::resolver::eval / eval_certain ('Err is loud, Ok is clean'), resolve_constant / resolve_instruction / resolve_data_element (the per-item pass contract), ResolveIterator::new/next (flags copied; the yielded node refers to defined items), Value::expect_error_or_bigint / expect_bool, DefList::get_mut (frame), derived PartialEq of expr::Value",
                "ghost event `ItemDefs::confirmed()` is produced only by resolve_once's stub clause [confirms] (a name for 'a no-guess pass answered Resolved'); termination of resolve_once's loop is not proved"]
 
-ALL_UNITS = ["U-overlap", "U-bigint", "U-constrain", "U-resolver", "U-iterate", "U-bitvec", "U-output", "U-charcount", "U-symbols", "U-rulemap", "U-literal", "U-format"]
+ALL_UNITS = ["U-overlap", "U-bigint", "U-constrain", "U-resolver", "U-iterate", "U-bitvec", "U-output", "U-charcount", "U-symbols", "U-rulemap", "U-literal", "U-format", "U-inspect"]
 
 PROPERTIES = {
     "C01": {
@@ -36,8 +37,8 @@ PROPERTIES = {
         "trusted_base": NUMBIGINT_TB + REPORT_TB + RESOLVER_TB,
     },
     "C02": {
-        "units": ["U-iterate", "U-resolver"],
-        "claim": "resolve_iteratively returns Ok(n) only after a pass in which guessing was forbidden answered Resolved (the confirming pass), with no later change to the definitions, for every budget; resolve_once answers Resolved only if every per-item resolver did (merge is conjunction) and an unstable item in a last pass is an error; resolve_label / resolve_res / resolve_align / resolve_addr answer Resolved only when the freshly computed value equals the previous one, and report 'did not converge' otherwise in the last pass.",
+        "units": ["U-iterate", "U-resolver", "U-inspect"],
+        "claim": "resolve_iteratively returns Ok(n) only after a pass in which guessing was forbidden answered Resolved (the confirming pass), with no later change to the definitions, for every budget; resolve_once answers Resolved only if every per-item resolver did (merge is conjunction) and an unstable item in a last pass is an error; resolve_label / resolve_res / resolve_align / resolve_addr answer Resolved only when the freshly computed value equals the previous one, and report 'did not converge' otherwise in the last pass. The 'statically known' analysis behind the resolved short-cut (is_value_statically_known) answers true only if every sub-expression the expression evaluates is statically known (blocks: all their expressions, asserts included); the nested loop of asm blocks returns only the value of a stable no-guess inner pass.",
         "not_reached": "that recomputing every instruction selects one unique smallest encoding (resolve_encoding/matcher); resolve_constant, resolve_instruction, resolve_data_element obey the pass contract by assumption; the nested loop in eval_asm",
         "trusted_base": NUMBIGINT_TB + REPORT_TB + RESOLVER_TB,
     },
@@ -66,8 +67,8 @@ PROPERTIES = {
         "trusted_base": ["vstd's specification of char::len_utf8 (1..=4 bytes)", "CharCounter::wf: 4 * chars.len() fits in usize (allocation limit of Vec<char>) is a precondition not checked at the call sites"],
     },
     "C08": {
-        "units": ["U-rulemap"],
-        "claim": "Matcher prefix index, query side only: RuledefMap::query_prefixed(q) returns, for every i up to the number of leading non-NUL characters of q (at most 4), exactly the bucket stored under q truncated to i characters, and nothing for longer prefixes - so a rule filed under a key that is a truncation of the instruction's prefix is always among the candidates, and no other bucket is consulted.",
+        "units": ["U-rulemap", "U-inspect"],
+        "claim": "Matcher prefix index, query side only: RuledefMap::query_prefixed(q) returns, for every i up to the number of leading non-NUL characters of q (at most 4), exactly the bucket stored under q truncated to i characters, and nothing for longer prefixes - so a rule filed under a key that is a truncation of the instruction's prefix is always among the candidates, and no other bucket is consulted. Static-value switch: is_value_statically_known is exactly the conjunction over all evaluated sub-expressions (so freezing an item after the first pass cannot skip an expression that depends on a symbol).",
         "not_reached": "RuledefMap::insert/build (HashMap entry API, iterator adapters) and parse_prefix (tokenizer): that a rule which matches an instruction is filed under a truncation of the instruction's prefix; the whole static-value optimisation (expr::inspect, resolved flags) - a relation between two executions of the evaluator",
         "trusted_base": ["ASSUMED: obeys_key_model::<[char; 4]>() (structural Hash/Eq of char arrays)", "vstd's HashMap::get specification"],
     },
